@@ -13,6 +13,7 @@ the API convention: they catch dropped / reordered / late-added fields, the wron
 wrong convention.  The SmartHome cloud (not used by discovery) is not under contract.
 """
 import hashlib
+import hmac
 from urllib.parse import unquote_plus, urlencode, urlparse
 
 from pyvc.dsl import contract, events, fields, final, implies, lemma, old, same_object, sha256, xor_bytes
@@ -150,3 +151,38 @@ contract(NHP + ".login",
                   "password_is_derived_from_the_login_id": "implies(len(P) >= 1, P[-1][1]['password'] == nhp_password(self._login_id, self._password))",
                   "login_id_is_the_one_the_server_issued": "implies(len(P) >= 2, same_object(self._login_id, events('api_result')[-2]['loginId']))",
                   "session_id_is_the_one_the_server_issued": "implies(len(P) >= 1, same_object(self._session, events('api_result')[-1]) and same_object(self._session_id, self._session['sessionId']))"})
+
+
+# ---- SmartHome cloud (not used by discovery; same flow, different convention) -------------------------------------------------
+from msmart.cloud import SmartHomeCloud  # noqa: E402
+
+SHC = CLOUD + "SmartHomeCloud"
+fields(SHC, _access_token="str", _security="obj:" + SHC + "._Security")
+fields(SHC + "._Security", _use_china_server="bool")
+
+contract(SHC + ".__init__",
+         params={"self": "new:" + SHC, "region": "str", "account": "opt:str", "password": "opt:str", "use_china_server": "bool"},
+         modifies=["self.*"],
+         raises={"builtins.ValueError": {}},
+         ensures={"signing_keys_are_those_of_the_server_the_requests_go_to": "(self._base_url == SmartHomeCloud.BASE_URL_CHINA) == self._security._use_china_server",
+                  "one_of_the_two_servers": "self._base_url == SmartHomeCloud.BASE_URL_CHINA or self._base_url == SmartHomeCloud.BASE_URL",
+                  "explicit_choice_is_honoured": "implies(use_china_server, self._security._use_china_server)",
+                  "no_session_yet": "self._access_token == ''"},
+         notes="C19 (SmartHome): the HMAC / login keys differ between the international and the China server; whatever selects the server "
+               "(argument or MIDEA_CHINA_SERVER in the environment) must select the keys too")
+
+contract(SHC + "._Security.sign#derivation",
+         params={"self": "obj:" + SHC + "._Security", "data": "str", "random": "str"},
+         returns="hmac.new('PROD_VnoClJI9aikS8dyy'.encode('ASCII'), ((('prod_secret123@muc' if self._use_china_server else 'meicloud') + data + random)).encode('ASCII'), hashlib.sha256).hexdigest()",
+         raises={"builtins.UnicodeEncodeError": {}})
+
+contract(SHC + "._Security.encrypt_password#derivation",
+         params={"self": "obj:" + SHC + "._Security", "login_id": "str", "password": "str"},
+         returns="hashlib.sha256((login_id + hashlib.sha256(password.encode('ASCII')).hexdigest() + ('ad0ee21d48a64bf49f4fb583ab76e799' if self._use_china_server else 'ac21b9f9cbfe4ca5a88562ef25e2b768')).encode('ASCII')).hexdigest()",
+         raises={"builtins.UnicodeEncodeError": {}})
+
+contract(SHC + "._Security.encrypt_iam_password#derivation",
+         params={"self": "obj:" + SHC + "._Security", "login_id": "str", "password": "str"},
+         returns="hashlib.md5(hashlib.md5(password.encode('ASCII')).hexdigest().encode('ASCII')).hexdigest() if self._use_china_server else "
+                 "hashlib.sha256((login_id + hashlib.md5(hashlib.md5(password.encode('ASCII')).hexdigest().encode('ASCII')).hexdigest() + 'ac21b9f9cbfe4ca5a88562ef25e2b768').encode('ASCII')).hexdigest()",
+         raises={"builtins.UnicodeEncodeError": {}})
